@@ -203,7 +203,7 @@ func c12GenSpace(d scopeSpaceDef) *core.Space {
 }
 
 // testdata sweep: every directory directly under luahelper-lsp/testdata is a workspace.
-const repoTestdata = "/repo/luahelper-lsp/testdata"
+var repoTestdata = core.RepoDir() + "/luahelper-lsp/testdata"
 
 type tdFile struct{ ws, rel string }
 
